@@ -32,7 +32,7 @@ from contextlib import contextmanager
 from typing import Any, Callable
 
 ROOT = os.path.dirname(os.path.dirname(os.path.abspath(__file__)))
-KNOWN_FILE = os.path.join(ROOT, "known_findings.json")
+KNOWN_DIR = os.path.join(ROOT, "known_findings")
 MAX_SAMPLES = 6
 MAX_ROUNDS = 6  # collect-then-shrink rounds per hypothesis sub-check
 
@@ -58,9 +58,10 @@ def sigkey(sig: dict) -> str:
 
 
 def load_known(pid: str) -> list[dict]:
-    if not os.path.exists(KNOWN_FILE):
+    path = os.path.join(KNOWN_DIR, f"{pid}.json")
+    if not os.path.exists(path):
         return []
-    with open(KNOWN_FILE) as f:
+    with open(path) as f:
         data = json.load(f)
     return [e for e in data.get("findings", []) if e.get("property") == pid]
 
